@@ -256,6 +256,10 @@ type valueFacts struct {
 	multibyteFits    bool // byte length over the limit, character count within it
 	nestedDupMap     bool
 	shortInvalidKept bool // invalid string within the byte limit held unchanged
+	// depth = number of slices / maps that enclose a value
+	deepestTruncated int // ... of the deepest string that was cut
+	deepestDupMap    int // ... of the deepest map offered with a duplicate key
+	deepestHeld      int // ... of the deepest value compared
 }
 
 // cmp compares what a record holds with what was offered under length limit
@@ -267,6 +271,7 @@ type cmp struct {
 }
 
 func (c cmp) value(path string, depth int, held, offered VD) {
+	c.facts.deepestHeld = max(c.facts.deepestHeld, depth)
 	if held.T != offered.T {
 		c.bad("value_mismatch", "%s: holds kind %s (%s), offered kind %s (%s)", path, held.T, held.render(), offered.T, offered.render())
 		c.anyStrings(path, held)
@@ -291,6 +296,7 @@ func (c cmp) value(path string, depth int, held, offered VD) {
 		oo, om := lastWins(offered.M)
 		if len(offered.M) != len(oo) {
 			c.facts.nestedDupMap = true
+			c.facts.deepestDupMap = max(c.facts.deepestDupMap, depth+1)
 		}
 		if len(held.M) > len(offered.M) {
 			c.bad("value_mismatch", "%s: holds a map of %d entries, offered %d", path, len(held.M), len(offered.M))
@@ -354,6 +360,7 @@ func (c cmp) str(path string, depth int, h, s string) {
 			} else {
 				c.facts.nestedTruncated = true
 			}
+			c.facts.deepestTruncated = max(c.facts.deepestTruncated, depth)
 			if clean != s {
 				c.facts.invalidTruncated = true
 			}
